@@ -83,6 +83,50 @@ fn build_file(c: &Value, variant: u32, with_comments: bool) -> (SlurmFile, Paylo
     (SlurmFile::new(filters, assertions), item)
 }
 
+/// every field of a payload item, as text (for multiset comparison)
+fn payload_fields(p: &Payload) -> String {
+    match p {
+        Payload::Origin(o) => format!("origin {} {:?} {}", o.prefix.prefix(), o.prefix.max_len(), o.asn),
+        Payload::RouterKey(k) => format!("key {} {} {:?}", k.key_identifier, k.asn, k.key_info.as_slice()),
+        Payload::Aspa(a) => format!("aspa {} {:?}", a.customer, a.providers.iter().collect::<Vec<_>>()),
+    }
+}
+
+/// A file whose assertion lists have several entries around `item`, with repeats, and the items they stand for.
+fn multi_assertions(item: &Payload) -> (SlurmFile, Vec<Payload>) {
+    let mut a = LocallyAddedAssertions::new(Vec::new(), Vec::new());
+    let mut want = Vec::new();
+    let p4 = MaxLenPrefix::new(Prefix::new("192.0.2.0".parse().unwrap(), 24).unwrap(), Some(26)).unwrap();
+    let p6 = MaxLenPrefix::new(Prefix::new("2001:db8::".parse().unwrap(), 32).unwrap(), None).unwrap();
+    let mut origins = vec![(p4, Asn::from_u32(64496)), (p6, Asn::from_u32(64496)), (p4, Asn::from_u32(64497)), (p4, Asn::from_u32(64496))];
+    let info = |b: u8| RouterKeyInfo::try_from(vec![b, 0xef, 0xbe, 0xff, 0x00, 0x3e, 1, 2, 3]).unwrap();
+    let kid = |b: u8| KeyIdentifier::from([b; 20]);
+    let mut keys = vec![(kid(1), Asn::from_u32(64496), info(1)), (kid(1), Asn::from_u32(64497), info(1)), (kid(2), Asn::from_u32(64496), info(2)), (kid(1), Asn::from_u32(64496), info(1))];
+    let prov = |v: &[u32]| ProviderAsns::try_from_iter(v.iter().map(|x| Asn::from_u32(*x))).unwrap();
+    let mut aspas = vec![(Asn::from_u32(64500), prov(&[65000, 65001])), (Asn::from_u32(64500), prov(&[65002])), (Asn::from_u32(64501), prov(&[65000, 65001])),
+                         (Asn::from_u32(64500), prov(&[65000, 65001]))];
+    match item {
+        Payload::Origin(o) => { origins.insert(1, (o.prefix, o.asn)); origins.push((o.prefix, o.asn)); }
+        Payload::RouterKey(k) => { keys.insert(1, (k.key_identifier, k.asn, k.key_info.clone())); keys.push((k.key_identifier, k.asn, k.key_info.clone())); }
+        Payload::Aspa(x) => { aspas.insert(1, (x.customer, x.providers.clone())); aspas.push((x.customer, prov(&[65009]))); }
+    }
+    for (m, asn) in origins {
+        a.prefix.push(PrefixAssertion::new(m, asn, None));
+        want.push(Payload::origin(m, asn));
+    }
+    for (k, asn, i) in keys {
+        a.bgpsec.push(BgpsecAssertion::new(asn, k, Base64KeyInfo::try_from(i.as_slice().to_vec()).unwrap(), None));
+        want.push(Payload::router_key(k, asn, i));
+    }
+    let mut list = Vec::new();
+    for (c, p) in aspas {
+        list.push(AspaAssertion::new(c, p.clone(), None));
+        want.push(Payload::aspa(c, p));
+    }
+    a.aspa = Some(list);
+    (SlurmFile::new(ValidationOutputFilters::new(Vec::new(), Vec::new()), a), want)
+}
+
 /// The same file grown the way the specification builds it: an empty file, then one filter / assertion at a time through the
 /// public fields (the file's format version stays what `new` chose for the empty file).
 fn grow_file(c: &Value, variant: u32) -> (SlurmFile, Payload) {
@@ -150,6 +194,24 @@ pub fn replay(args: &[String]) {
                         }
                     }
                     _ => return Err(("assertion:payload".into(), "payload kind differs".into())),
+                }
+                // several assertions of every kind, with repeats (the same prefix twice, the same customer under two provider
+                // sets and once more verbatim, the same router key twice): EACH assertion yields its item
+                if variant == 0 {
+                    let (multi, want) = multi_assertions(&item);
+                    let mut got: Vec<String> = multi.assertions.iter_payload().map(|p| payload_fields(&p)).collect();
+                    let mut want: Vec<String> = want.iter().map(payload_fields).collect();
+                    got.sort();
+                    want.sort();
+                    if got != want {
+                        return Err(("assertion:payload:list".into(), format!("{} assertions yield {} items; missing or altered: {:?}", want.len(), got.len(),
+                                                                             want.iter().filter(|w| !got.contains(w)).take(3).collect::<Vec<_>>())));
+                    }
+                    let text = multi.to_string();
+                    let back = SlurmFile::from_str(&text).map_err(|e| ("json:parse".to_string(), format!("own JSON does not parse: {e}: {text}")))?;
+                    if back != multi {
+                        return Err(("json:roundtrip".into(), format!("JSON round trip changed the file: {text}")));
+                    }
                 }
                 Ok(())
             });
